@@ -63,6 +63,9 @@ pub struct RunResult {
     pub max_deviations: (u32, u32, u32),
     /// The execution in which a load / load_full took the most own steps.
     pub max_load: (u64, Vec<u16>),
+    /// Set when the exploration had to stop because a panic tainted this process (and the
+    /// panic did not decide the property): the subtrees somebody else has to explore.
+    pub resume: Option<Vec<Vec<u16>>>,
 }
 
 pub fn cfg_string(c: &Config) -> String {
@@ -118,6 +121,7 @@ pub fn run_local(
     }
     cfg.tls_reverse = inst.tls_reverse;
     let cfgs = cfg_string(&cfg);
+    let mut stopped_tainted = false;
     let stats = rt::explore(
         &cfg,
         prefix,
@@ -161,6 +165,10 @@ pub fn run_local(
                             if !out.known_hits.iter().any(|(j, _)| *j == i) {
                                 out.known_hits.push((i, rec));
                             }
+                            if rt::tainted() {
+                                stopped_tainted = true;
+                                return Next::Stop;
+                            }
                             return Next::Continue;
                         }
                         out.deciding = Some(rec);
@@ -170,7 +178,13 @@ pub fn run_local(
                         if out.first_other.is_none() {
                             out.first_other = Some(rec);
                         }
-                        Next::Continue
+                        if rt::tainted() {
+                            // a panic was cut short on this OS thread: one more would abort
+                            stopped_tainted = true;
+                            Next::Stop
+                        } else {
+                            Next::Continue
+                        }
                     }
                 }
             }
@@ -182,6 +196,9 @@ pub fn run_local(
     out.max_steps = stats.max_steps;
     out.max_choice_points = stats.max_choice_points;
     out.complete = stats.complete;
+    if stopped_tainted {
+        out.resume = Some(stats.remaining);
+    }
     out
 }
 
